@@ -4753,6 +4753,7 @@ def translate(repo, overrides):
           "-/", "import OH.Model.RustInt", "import OH.Model.RustChrono", "import OH.Model.RustDated", "namespace OH.Generated.Arith", "open OH.Model.RustInt",
           "open OH.Model.RustChrono", ""]
     L.insert(L.index("import OH.Model.RustInt") + 1, "import OH.Model.RustIter")  # [iteration extension]
+    L.insert(L.index("import OH.Model.RustDated") + 1, "import OH.Model.RustDated3")  # [dated3 extension]
     used_structs = []
 
     used_enums = []
@@ -4871,6 +4872,7 @@ def translate(repo, overrides):
     L += guarded_section("seq", lambda: seq_section(toks))  # third extension: sequences (Vec, iterators, loops, from_fn, library calls as EXTERNs)
     L += guarded_section("schedule", lambda: sched_section(toks, lambda rel: raw_of[rel]))  # [schedule extension] fourth increment: schedule.rs
     L += guarded_section("dated2", lambda: dated2_section(toks))  # [dated2 extension] fifth increment: the interval consumers of date_filter.rs
+    L += guarded_section("dated3", lambda: dated3_section(toks))  # [dated3 extension] sixth increment: single_interval_from_bounds, the `Date` arms of MonthdayRange, intervals_from_bounds
     L += guarded_section("eval", lambda: eval_section(toks, lambda rel: raw_of[rel]))  # [eval extension] fifth increment: opening_hours.rs
     toks.raw = lambda rel: (toks(rel), raw_of[rel])[1]  # [tz extension]
     L += guarded_section("tz", lambda: tz_section(toks, lambda rel: raw_of[rel]))  # [tz extension] fifth increment: localization/localize.rs
@@ -9374,6 +9376,1072 @@ def tz_pipe_section(toks):
     return L
 
 
+
+# ------------------------------------------------------------------------------------------------
+# [dated3 extension] sixth increment: `single_interval_from_bounds` and the `Date { .. }` arms of
+# `MonthdayRange::next_change_hint` / `MonthdayRange::filter` (opening-hours/src/filter/date_filter.rs; DESIGN §8.9,
+# notes/RS2LEAN6-dated3.md).  A small front end of its own: the base `Parser` (chrono mode) with three more forms
+# (`if let Some(x) = e { .. }` without `else`, `if let (Date::Fixed { .. }, true) = (a, b) { .. }`, `match e { Some(x) =>
+# a, None => b }`) and a continuation-passing generator `D3Gen` over a closed table of types and callees.  The callees
+# translated elsewhere are CALLED (`DateFilter.date_year`, `DateFilter.date_on_year`, `DateFilter.year_before_offset`,
+# `DateOffset.apply`, `Dated2.*`); `valid_ymd_after` / `valid_ymd_before` are passed as function VALUES; `single_day_intervals`
+# is translated here (the list of its items); `ensure_increasing_iter` / `intervals_from_bounds` are translated by the second
+# part of the region (`D3StepGen`: the closure of `std::iter::from_fn` as a step function) — the named parameter
+# `ext_intervals_from_bounds` of the dated2 region is still passed on by the arms, OH/Props/ArithC02Dated3Bounds.lean proves
+# that the translated function is the hand model the ties instantiate it with.  Everything else is an error naming file:line.
+D3_IMPORTS = {("chrono", "NaiveDate"), ("crate::opening_hours", "DATE_END"), ("std::ops", "RangeInclusive")}
+D3_DATE, D3_I32 = "date", "i32"
+D3_LTY = {"date": "Int", "i32": "Int", "u16": "Int", "u8": "Int", "bool": "Bool", "Date": "Date", "DateOffset": "DateOffset", "Month": "Month"}
+D3_SHOW = {"date": "NaiveDate", "Date": "ds::Date", "DateOffset": "ds::DateOffset"}
+# translated free functions of date_filter.rs: name -> (parameter types, result type, Lean name, named parameters passed on)
+D3_CALLEES = {
+    "date_year": (["Date"], ("opt", "i32"), "DateFilter.date_year", []),
+    "year_before_offset": (["date", "DateOffset"], "i32", "DateFilter.year_before_offset", []),
+    "is_open_from_intervals": (["date", ("list", ("rng", "date"))], "bool", "Dated2.is_open_from_intervals", []),
+    "next_change_from_intervals": (["date", ("list", ("rng", "date"))], "date", "Dated2.next_change_from_intervals", []),
+    "is_open_from_bounds": (["date", ("list", "date"), ("list", "date")], "bool", "Dated2.is_open_from_bounds", ["ext_intervals_from_bounds"]),
+    "next_change_from_bounds": (["date", ("list", "date"), ("list", "date")], "date", "Dated2.next_change_from_bounds", ["ext_intervals_from_bounds"]),
+}
+D3_BUILDERS = {"valid_ymd_after": "DateFilter.valid_ymd_after", "valid_ymd_before": "DateFilter.valid_ymd_before"}
+# the signatures (parameter names removed) the tables above assume for the functions translated by the other sections: checked
+# against the source on every run (a changed signature is an error here, never a silently stale table)
+D3_SIGS = {
+    "date_year": "fn date_year ( ds :: Date ) -> Option < i32 >",
+    "year_before_offset": "fn year_before_offset ( NaiveDate , ds :: DateOffset ) -> i32",
+    "date_on_year": "fn date_on_year ( ds :: Date , i32 , impl FnOnce ( i32 , u32 , u32 ) -> Option < NaiveDate > , ) -> Option < NaiveDate >",
+    "valid_ymd_after": "fn valid_ymd_after ( i32 , u32 , u32 ) -> Option < NaiveDate >",
+    "valid_ymd_before": "fn valid_ymd_before ( i32 , u32 , u32 ) -> Option < NaiveDate >",
+    "is_open_from_intervals": "fn is_open_from_intervals ( NaiveDate , impl Iterator < Item = RangeInclusive < NaiveDate >> , ) -> bool",
+    "next_change_from_intervals": "fn next_change_from_intervals ( NaiveDate , impl Iterator < Item = RangeInclusive < NaiveDate >> , ) -> NaiveDate",
+    "is_open_from_bounds": "fn is_open_from_bounds ( NaiveDate , impl IntoIterator < Item = NaiveDate > , impl IntoIterator < Item = NaiveDate > , ) -> bool",
+    "next_change_from_bounds": "fn next_change_from_bounds ( NaiveDate , impl IntoIterator < Item = NaiveDate > , impl IntoIterator < Item = NaiveDate > , ) -> NaiveDate",
+}
+D3_SIG_APPLY = "fn apply ( & self , NaiveDate ) -> NaiveDate"
+
+
+def d3_sig_text(tk, at):
+    j = at
+    while tk[j].text != "{":
+        if tk[j].kind == "eof":
+            fail("(dated3)", "no body")
+        j += 1
+    return re.sub(r"(?:mut )?\w+ : ", "", " ".join(x.text for x in tk[at:j]))
+# untranslated functions of date_filter.rs: name -> (parameter types, result type, Lean type of the named parameter)
+D3_FN_HOLES = {}
+D3_EXT_TY = {"ext_intervals_from_bounds": "List Int → List Int → List (RangeInclusive Int)"}
+D3_ARMS = [("next_change_hint", ("opt", "date"), "hint_date"), ("filter", "bool", "filter_date")]
+
+
+def d3_lty(t, top=True):
+    if isinstance(t, tuple):
+        s_ = {"opt": "Option", "rng": "RangeInclusive", "list": "List"}[t[0]] + " " + d3_lty(t[1], False)
+        return s_ if top else f"({s_})"
+    return D3_LTY[t]
+
+
+def d3_show(t):
+    if isinstance(t, tuple):
+        return {"opt": "Option<%s>", "rng": "RangeInclusive<%s>", "list": "impl IntoIterator<Item = %s>"}[t[0]] % d3_show(t[1])
+    return D3_SHOW.get(t, t)
+
+
+class D3Parser(Parser):
+    def primary(self, nostruct):
+        if self.at("move") and self.peek(1).text == "|":
+            # `move |x| e`: the closure owns copies of what it captures; here every captured value is `Copy` and never written
+            # (checked by the generator: the captured variables have the types of D3_LTY, none is `mut`), so it is `|x| e`
+            self.i += 1
+        if self.at("move") and self.peek(1).text == "||":
+            self.i += 1  # `move || { .. }`: only as the argument of `std::iter::from_fn` (checked by `d3_step_fn`)
+            n = Parser.primary(self, nostruct)
+            n.move = True
+            return n
+        if self.at("while"):
+            # `while c {}` with an EMPTY body (the condition does the work: `next_if`); as a statement-level `if` node so that
+            # `Parser.block` accepts it without `;`
+            line = self.eat("while").line
+            c = self.expr(nostruct=True)
+            self.eat("{")
+            if not self.at("}"):
+                fail(self.where(), "a `while` loop with a body is outside the translated subset (dated3 functions)")
+            self.eat("}")
+            return Node("if", line, c=Node("d3whilecond", line, c=c), a=None, b=None)
+        return Parser.primary(self, nostruct)
+
+    def iflet_(self, nostruct):
+        """`if let Some(x) = e { a } [else { b }]`; `if let (Date::Fixed { f, g: name, .. }, true) = (a, b) { .. }` (no `else`)"""
+        line = self.eat("if").line
+        self.eat("let")
+        if self.at("("):
+            self.i += 1
+            ptk = self.peek()
+            path = [self.ident()]
+            while self.at("::"):
+                self.i += 1
+                path.append(self.ident())
+            if len(path) > 1 and path[0] in self.aliases:
+                path = path[1:]
+            if path != ["Date", "Fixed"] or not self.at("{"):
+                fail(self.where(ptk), "only `if let (Date::Fixed { .. }, true) = (a, b)` is translated (dated3 functions)")
+            self.eat("{")
+            fields = {}
+            while not self.at("}"):
+                ftk = self.peek()
+                fn = self.ident()
+                bn = fn
+                if self.at(":"):
+                    self.i += 1
+                    bn = self.ident()
+                if fn in fields or not re.fullmatch(r"[a-z_][a-z0-9_]*", bn) or re.fullmatch(r"tmp\d+|ext_\w+", bn):
+                    fail(self.where(ftk), f"field pattern `{fn}: {bn}` is outside the translated subset")
+                fields[fn] = bn
+                if not self.at("}"):
+                    self.eat(",")
+            self.eat("}")
+            if sorted(fields) != ["day", "month", "year"]:
+                fail(self.where(ptk), "the pattern has to name the three fields of `Date::Fixed`")
+            self.eat(",")
+            self.eat("true")
+            self.eat(")")
+            self.eat("=")
+            self.eat("(")
+            e1 = self.expr()
+            self.eat(",")
+            e2 = self.expr()
+            self.eat(")")
+            a = self.block()
+            if self.at("else"):
+                fail(self.where(), "`else` after this `if let` is outside the translated subset")
+            return Node("if", line, c=Node("d3fixedcond", line, fields=fields, e1=e1, e2=e2), a=a, b=None)
+        self.eat("Some")
+        self.eat("(")
+        name = self.ident()
+        self.eat(")")
+        self.eat("=")
+        s_ = self.expr(nostruct=True)
+        a = self.block()
+        b = None
+        if self.at("else"):
+            self.i += 1
+            b = self.block()
+        return Node("if", line, c=Node("d3somecond", line, name=name, e=s_), a=a, b=b)
+
+    def match_(self, nostruct):
+        """`match e { Some(x) => a, None => b }` (either order)"""
+        line = self.eat("match").line
+        scrut = self.expr(nostruct=True)
+        self.eat("{")
+        if scrut.kind == "tuple":
+            # `match (a, b) { (P, Q) [if g] => body, .. }` with P, Q among `None`, `Some(x)`, `Some(_)`, `_`
+            arms = []
+            while not self.at("}"):
+                self.eat("(")
+                pats = []
+                while not self.at(")"):
+                    if self.at("None"):
+                        self.i += 1
+                        pats.append(("none",))
+                    elif self.at("_"):
+                        self.i += 1
+                        pats.append(("wild",))
+                    elif self.at("Some"):
+                        self.i += 1
+                        self.eat("(")
+                        pats.append(("some", self.ident()))
+                        self.eat(")")
+                    else:
+                        fail(self.where(), "this pattern is outside the translated subset (dated3 functions)")
+                    if not self.at(")"):
+                        self.eat(",")
+                self.eat(")")
+                if len(pats) != len(scrut.items):
+                    fail(self.where(), "the pattern does not have the shape of the scrutinee")
+                guard = None
+                if self.at("if"):
+                    self.i += 1
+                    guard = self.expr(nostruct=True)
+                self.eat("=>")
+                if self.at("{"):
+                    body = self.block()
+                    if self.at(","):
+                        self.i += 1
+                else:
+                    bl = self.peek().line
+                    body = Node("block", bl, stmts=[], tail=self.expr())
+                    if not self.at("}"):
+                        self.eat(",")
+                arms.append((pats, guard, body))
+            self.eat("}")
+            return Node("d3tmatch", line, scrut=scrut, arms=arms)
+        arms = {}
+        for _ in range(2):
+            ptk = self.peek()
+            if self.at("None"):
+                self.i += 1
+                key, name = "none", None
+            elif self.at("Some"):
+                self.i += 1
+                self.eat("(")
+                name = self.ident()
+                self.eat(")")
+                key = "some"
+            else:
+                fail(self.where(), "only `match e { Some(x) => a, None => b }` is translated (dated3 functions)")
+            if key in arms:
+                fail(self.where(ptk), "two arms of the same shape")
+            self.eat("=>")
+            if self.at("{"):
+                body = self.block()
+                if self.at(","):
+                    self.i += 1
+            else:
+                bl = self.peek().line
+                body = Node("block", bl, stmts=[], tail=self.expr())
+                if not self.at("}"):
+                    self.eat(",")
+            arms[key] = (name, body)
+        self.eat("}")
+        return Node("d3matchopt", line, scrut=scrut, arms=arms)
+
+
+class D3Gen:
+    def __init__(self, fname, rname, lean_name, params, ret, body, local_sigs, uses, fns):
+        self.f, self.rname, self.lean_name, self.params, self.ret, self.body = fname, rname, lean_name, params, ret, body
+        self.sigs, self.uses, self.fns = local_sigs, uses, fns
+        self.n = 0
+        self.externs = {}
+
+    def w(self, node):
+        return f"{self.f}:{node.line}"
+
+    def fresh(self):
+        self.n += 1
+        return f"tmp{self.n}"
+
+    def site(self, e):
+        return f'"{self.rname}:{e.line}"'
+
+    def gen(self, doc):
+        env = {}
+        for pn, pt in self.params:
+            if re.fullmatch(r"tmp\d+|ext_\w+", pn) or pn in D3_BUILDERS:
+                fail(self.f, f"{self.rname}: parameter name {pn} clashes with the translator's names")
+            env[pn] = pt
+        lines = self.block(self.body, env, lambda t, ty: self.ret_(t, ty, self.body))
+        ps = [f"({lname(n)} : {d3_lty(t)})" for n, t in self.params] + [f"({n} : {t})" for n, t in sorted(self.externs.items())]
+        return [doc, f"def {self.lean_name} {' '.join(ps)} : R {d3_lty(self.ret, False)} :="] + ["  " + x for x in lines]
+
+    def ret_(self, term, ty, node):
+        if not self.same(ty, self.ret):
+            fail(self.w(node), f"type mismatch: the function returns {d3_show(self.ret)}, found {d3_show(ty)}")
+        return [f".ok {atom(term)}"]
+
+    def same(self, a, b):
+        if a == ("opt", None) and isinstance(b, tuple) and b[0] == "opt":
+            return True
+        return a == b
+
+    # -- blocks
+    def block(self, b, env, k):
+        def go(i, env):
+            if i == len(b.stmts):
+                if b.tail.kind == "return":
+                    return self.cg(b.tail.e, env, lambda t, ty: self.ret_(t, ty, b.tail))
+                if b.tail.kind == "unit":
+                    fail(self.w(b), "a block without a value is outside the translated subset (dated3 functions)")
+                return self.cg(b.tail, env, k)
+            s_ = b.stmts[i]
+            if s_.kind == "let":
+                if s_.mut or s_.ann is not None:
+                    fail(self.w(s_), "`let mut` / an annotated `let` is outside the translated subset (dated3 functions)")
+                if re.fullmatch(r"tmp\d+|ext_\w+", s_.name) or s_.name in D3_BUILDERS or s_.name in D3_CALLEES:
+                    fail(self.w(s_), f"variable name {s_.name} clashes with the translator's names")
+
+                def bound(t, ty):
+                    if ty is None or ty == ("opt", None):
+                        fail(self.w(s_), "`let` of a value of unknown type")
+                    env2 = dict(env)
+                    env2[s_.name] = ty
+                    return [f"let {lname(s_.name)} := {t}"] + go(i + 1, env2)
+                return self.cg(s_.e, env, bound)
+            if s_.kind == "exprstmt" and s_.e.kind == "if" and s_.e.c.kind in ("d3fixedcond", "d3somecond") and s_.e.b is None:
+                return self.iflet_stmt(s_.e, env, lambda: go(i + 1, env))
+            fail(self.w(s_), "statement outside the translated subset (dated3 functions)")
+        return go(0, env)
+
+    def diverges(self, b):
+        return b.tail is not None and b.tail.kind == "return"
+
+    def iflet_stmt(self, e, env, rest):
+        """`if let PAT = v { ..; return r; }` followed by the rest of the block: a `match` whose other arm is the rest"""
+        if not self.diverges(e.a):
+            fail(self.w(e), "an `if let` without `else` has to end with `return ..;` (dated3 functions)")
+        c = e.c
+        if c.kind == "d3somecond":
+            def got(t, ty):
+                if not isinstance(ty, tuple) or ty[0] != "opt" or ty[1] is None:
+                    fail(self.w(e), f"`if let Some(..)` on {d3_show(ty)}")
+                if c.name in env:
+                    fail(self.w(e), f"`{c.name}` shadows another variable: outside the translated subset")
+                env2 = dict(env)
+                env2[c.name] = ty[1]
+                return [f"match {t} with", f"| some {lname(c.name)} => ("] + ["  " + x for x in self.block(e.a, env2, None)] + ["  )", "| none => ("] + \
+                       ["  " + x for x in rest()] + ["  )"]
+            return self.cg(c.e, env, got)
+
+        def got1(t1, ty1):
+            def got2(t2, ty2):
+                if ty1 != "Date" or ty2 != "bool":
+                    fail(self.w(e), f"`if let (Date::Fixed {{ .. }}, true)` on ({d3_show(ty1)}, {d3_show(ty2)})")
+                env2 = dict(env)
+                for fn, ft in (("year", ("opt", "u16")), ("month", "Month"), ("day", "u8")):
+                    if c.fields[fn] in env:
+                        fail(self.w(e), f"`{c.fields[fn]}` shadows another variable: outside the translated subset")
+                    env2[c.fields[fn]] = ft
+                pat = " ".join(lname(c.fields[fn]) for fn in ("year", "month", "day"))
+                return [f"match {t1}, {t2} with", f"| .Fixed {pat}, true => ("] + ["  " + x for x in self.block(e.a, env2, None)] + ["  )", "| _, _ => ("] + \
+                       ["  " + x for x in rest()] + ["  )"]
+            return self.cg(c.e2, env, got2)
+        return self.cg(c.e1, env, got1)
+
+    # -- pure expressions (closures of `find`, conditions)
+    def pure(self, e, env):
+        box = []
+        lines = self.cg(e, env, lambda t, ty: box.append((t, ty)) or [])
+        if lines or len(box) != 1:
+            fail(self.w(e), "an expression that can fail / return is outside the translated subset here (dated3 functions)")
+        return box[0]
+
+    def closure1(self, c, pty, env):
+        if c.kind != "closure" or c.pat is None or not isinstance(c.pat, str):
+            fail(self.w(c), "expected a closure `|x| e` (dated3 functions)")
+        if c.pat in env or c.pat in D3_BUILDERS or c.pat in D3_CALLEES:
+            fail(self.w(c), f"the closure parameter `{c.pat}` shadows another name: outside the translated subset")
+        env2 = dict(env)
+        env2[c.pat] = pty
+        return lname(c.pat), env2
+
+    def closure_m(self, c, pty, env):
+        """a closure that may have effects: (Lean lines of `fun x => ..`, result type); `?` / `return` inside are errors"""
+        x, env2 = self.closure1(c, pty, env)
+        box = []
+        saved, self.in_closure = getattr(self, "in_closure", False), True
+        try:
+            lines = self.cg(c.body, env2, lambda t, ty: box.append(ty) or [f".ok {atom(t)}"])
+        finally:
+            self.in_closure = saved
+        if len(box) != 1:
+            fail(self.w(c), "this closure is outside the translated subset")
+        return [f"(fun ({x} : {d3_lty(pty)}) =>"] + ["    " + l_ for l_ in lines[:-1]] + ["    " + lines[-1] + ")"], box[0]
+
+    def ext(self, name, lt):
+        if self.externs.get(name, lt) != lt:
+            fail(self.f, f"parameter {name} at two types")
+        self.externs[name] = lt
+        return name
+
+    # -- expressions: `k(term, type)` continues with the value
+    def cg(self, e, env, k):
+        kind, w = e.kind, self.w(e)
+        if kind == "paren":
+            return self.cg(e.e, env, lambda t, ty: k(atom(t), ty))
+        if kind in ("ref", "deref"):
+            return self.cg(e.e, env, k)  # a shared reference to a value is the value
+        if kind == "blockexpr":
+            return self.block(e.b, env, k)
+        if kind == "var":
+            if e.name not in env:
+                fail(w, f"unknown variable `{e.name}`")
+            return k(lname(e.name), env[e.name])
+        if kind == "lit":
+            if e.suffix not in (None, "i32"):
+                fail(w, "an integer literal that is not an `i32` is outside the translated subset (dated3 functions)")
+            return k(str(e.value), "i32")
+        if kind == "some":
+            if getattr(e, "result", False):
+                fail(w, "`Ok(..)` is outside the translated subset")
+            return self.cg(e.e, env, lambda t, ty: k(f"some {atom(t)}", ("opt", ty)))
+        if kind == "none":
+            return k("none", ("opt", None))
+        if kind == "try":
+            if getattr(self, "in_closure", False):
+                fail(w, "`?` inside a closure is outside the translated subset (dated3 functions)")
+            if not (isinstance(self.ret, tuple) and self.ret[0] == "opt"):
+                fail(w, "`?` in a function that does not return an Option")
+
+            def got(t, ty):
+                if not isinstance(ty, tuple) or ty[0] != "opt" or ty[1] is None:
+                    fail(w, f"`?` on {d3_show(ty)}")
+                v = self.fresh()
+                return [f"match {t} with", "| none => .ok none", f"| some {v} =>"] + k(v, ty[1])
+            return self.cg(e.e, env, got)
+        if kind == "bin":
+            return self.bin(e, env, k)
+        if kind == "range":
+            if not e.incl:
+                fail(w, "`a..b` is outside the translated subset (dated3 functions)")
+            return self.cg(e.l, env, lambda a, ta: self.cg(e.r, env, lambda b, tb: k(f"RangeInclusive.mk {atom(a)} {atom(b)}", ("rng", ta))
+                           if ta == tb and ta in ("date", "i32") else fail(w, f"an inclusive range of {d3_show(ta)} ..= {d3_show(tb)}")))
+        if kind == "arraylit":
+            fail(w, "an array literal is translated only as `[x].into_iter()`")
+        if kind == "if":
+            return self.if_(e, env, k)
+        if kind == "d3matchopt":
+            def got(t, ty):
+                if not isinstance(ty, tuple) or ty[0] != "opt" or ty[1] is None:
+                    fail(w, f"`match` with `Some` / `None` arms on {d3_show(ty)}")
+                name, sb = e.arms["some"]
+                # `Some(x) => ..` may reuse the name of the scrutinee (the outer variable is hidden in that arm only)
+                if name in env and not (e.scrut.kind == "var" and e.scrut.name == name):
+                    fail(w, f"`{name}` shadows another variable: outside the translated subset")
+                env2 = dict(env)
+                env2[name] = ty[1]
+                return [f"match {t} with", f"| some {lname(name)} => ("] + ["  " + x for x in self.block(sb, env2, k)] + ["  )", "| none => ("] + \
+                       ["  " + x for x in self.block(e.arms["none"][1], env, k)] + ["  )"]
+            return self.cg(e.scrut, env, got)
+        if kind == "call":
+            return self.call(e, env, k)
+        if kind == "method":
+            return self.method(e, env, k)
+        if kind == "return":
+            if getattr(self, "in_closure", False):
+                fail(w, "`return` inside a closure is outside the translated subset")
+            return self.cg(e.e, env, lambda t, ty: self.ret_(t, ty, e))
+        fail(w, f"this expression ({kind}) is outside the translated subset (dated3 functions)")
+
+    def if_(self, e, env, k):
+        w = self.w(e)
+        if e.c.kind == "d3somecond" and e.b is not None:
+            def got(t, ty):
+                if not isinstance(ty, tuple) or ty[0] != "opt" or ty[1] is None:
+                    fail(w, f"`if let Some(..)` on {d3_show(ty)}")
+                if e.c.name in env:
+                    fail(w, f"`{e.c.name}` shadows another variable: outside the translated subset")
+                env2 = dict(env)
+                env2[e.c.name] = ty[1]
+                return [f"match {t} with", f"| some {lname(e.c.name)} => ("] + ["  " + x for x in self.block(e.a, env2, k)] + ["  )", "| none => ("] + \
+                       ["  " + x for x in self.block(e.b, env, k)] + ["  )"]
+            return self.cg(e.c.e, env, got)
+        fail(w, "this `if` is outside the translated subset (dated3 functions)")
+
+    def bin(self, e, env, k):
+        w = self.w(e)
+        if e.op in ("+", "-"):
+            def got(a, ta):
+                def got2(b, tb):
+                    if ta != "i32" or tb != "i32":
+                        fail(w, f"`{e.op}` on {d3_show(ta)}, {d3_show(tb)}: only `i32` arithmetic is translated (dated3 functions)")
+                    v = self.fresh()
+                    return [f"bnd ({'add' if e.op == '+' else 'sub'} .i32 {self.site(e)} {atom(a)} {atom(b)}) fun {v} =>"] + k(v, "i32")
+                return self.cg(e.r, env, got2)
+            return self.cg(e.l, env, got)
+        if e.op in ("==", "!=", "<", "<=", ">", ">="):
+            def got(a, ta):
+                def got2(b, tb):
+                    if ta != tb or (ta not in ("date", "i32", "u16", "u8") and not (ta == "Date" and e.op in ("==", "!="))):
+                        fail(w, f"`{e.op}` on {d3_show(ta)}, {d3_show(tb)} is outside the translated subset (dated3 functions)")
+                    op = {"==": "=", "!=": "≠", "<": "<", "<=": "≤", ">": ">", ">=": "≥"}[e.op]
+                    return k(f"decide ({atom(a)} {op} {atom(b)})", "bool")
+                return self.cg(e.r, env, got2)
+            return self.cg(e.l, env, got)
+        fail(w, f"operator `{e.op}` is outside the translated subset (dated3 functions)")
+
+    def args(self, args, env, k):
+        def go(i, acc):
+            if i == len(args):
+                return k(acc)
+            return self.cg(args[i], env, lambda t, ty: go(i + 1, acc + [(t, ty)]))
+        return go(0, [])
+
+    def call(self, e, env, k):
+        w, p = self.w(e), "::".join(e.path)
+        if getattr(e, "alias", None):
+            fail(w, f"`{e.alias}::{p}(..)` is outside the translated subset (dated3 functions)")
+        if p in env:
+            fail(w, f"a call of the local `{p}` is outside the translated subset")
+        if p == "i32::from":
+            if len(e.args) != 1:
+                fail(w, "`i32::from` takes one argument")
+            return self.cg(e.args[0], env, lambda t, ty: k(t, "i32") if ty in ("u16", "u8", "i32") else fail(w, f"`i32::from` of {d3_show(ty)}"))
+        if p == "NaiveDate::from_ymd_opt":
+            # chrono's `NaiveDate::from_ymd_opt(year: i32, month: u32, day: u32)` in its RustChrono.lean meaning; `month.into()` is the
+            # macro-generated `From<Month> for u32` (the discriminant cast, DATED_ENUM_INTO), `day.into()` the value-preserving `u8 -> u32`
+            if len(e.args) != 3 or ("chrono", "NaiveDate") not in self.uses:
+                fail(w, "`NaiveDate::from_ymd_opt` takes three arguments (and `chrono::NaiveDate` has to be imported)")
+
+            def arg(a, want, k2):
+                if a.kind == "method" and a.name == "into" and not a.args:
+                    def conv(t, ty):
+                        if ty == "Month" and want == "u32" and DATED_ENUM_INTO_OK.get(("Month", "u32")):
+                            return k2(f"wrap .u32 (Month.discr {atom(t)})")
+                        if ty in ("u8", "u16") and want == "u32":
+                            return k2(t)
+                        fail(self.w(a), f"`.into()` from {d3_show(ty)} towards {want} is outside the translated subset")
+                    return self.cg(a.e, env, conv)
+                return self.cg(a, env, lambda t, ty: k2(t) if ty == want else fail(self.w(a), f"expected {want}, found {d3_show(ty)}"))
+            return arg(e.args[0], "i32", lambda y: arg(e.args[1], "u32", lambda m: arg(e.args[2], "u32", lambda d:
+                       k(f"Chrono.from_ymd_opt {atom(y)} {atom(m)} {atom(d)}", ("opt", "date")))))
+        if p not in self.fns:
+            fail(w, f"`{p}` is not a function of {self.f}: outside the translated subset")
+        if p == "date_on_year":
+            if len(e.args) != 3 or e.args[2].kind != "var" or e.args[2].name not in D3_BUILDERS or e.args[2].name in env or e.args[2].name not in self.fns:
+                fail(w, "`date_on_year(date, year, valid_ymd_after | valid_ymd_before)`: the third argument has to be one of these two functions of the file")
+
+            def got(a):
+                if [ty for _, ty in a] != ["Date", "i32"]:
+                    fail(w, "type mismatch in the call of `date_on_year`")
+                v = self.fresh()
+                return [f"bnd (DateFilter.date_on_year {atom(a[0][0])} {atom(a[1][0])} {D3_BUILDERS[e.args[2].name]}) fun {v} =>"] + k(v, ("opt", "date"))
+            return self.args(e.args[:2], env, got)
+        if p in self.sigs:  # a function of this section: tuple arguments are flattened
+            flat = []
+            for a in e.args:
+                flat += a.items if a.kind == "tuple" else [a]
+            pts, rt, ln, exts = self.sigs[p]
+            shape = [len(a.items) if a.kind == "tuple" else 0 for a in e.args]
+            if shape != self.sigs[p + "#shape"]:
+                fail(w, f"the arguments of `{p}` do not have the shape of its parameters")
+        elif p in D3_CALLEES:
+            flat = e.args
+            pts, rt, ln, exts = D3_CALLEES[p]
+        elif p in D3_FN_HOLES:
+            pts, rt, lt = D3_FN_HOLES[p]
+            flat, ln, exts = e.args, None, []
+        else:
+            fail(w, f"a call of `{p}` is outside the translated subset (dated3 functions)")
+
+        def got(a):
+            if len(a) != len(pts) or any(ty != pt for (_, ty), pt in zip(a, pts)):
+                fail(w, f"type mismatch in the call of `{p}`: expected ({', '.join(d3_show(t) for t in pts)}), found ({', '.join(d3_show(ty) for _, ty in a)})")
+            ts = " ".join(atom(t) for t, _ in a)
+            if ln is None:
+                return k(f"{self.ext('ext_' + p, lt)} {ts}", rt)
+            for x in exts:
+                self.ext(x, D3_EXT_TY[x])
+            v = self.fresh()
+            return [f"bnd ({ln} {ts}{''.join(' ' + x for x in exts)}) fun {v} =>"] + k(v, rt)
+        return self.args(flat, env, got)
+
+    def chain(self, e):
+        """`(a..=b).filter_map(c1).map(c2)`: (range node, c1, c2) or None"""
+        if e.kind == "method" and e.name == "map" and len(e.args) == 1 and e.e.kind == "method" and e.e.name == "filter_map" and len(e.e.args) == 1:
+            r = e.e.e
+            while r.kind == "paren":
+                r = r.e
+            if (r.kind == "range" and r.incl) or r.kind == "var":
+                return r, e.e.args[0], e.args[0]
+        return None
+
+    def chain_parts(self, ch, env, k):
+        """evaluates the bounds of the range, then `k(term of the list of years, lines of the two closures, item type)`"""
+        r, c1, c2 = ch
+
+        def got(rt, rty):
+            if rty != ("rng", "i32"):
+                fail(self.w(r), f"an adaptor chain over {d3_show(rty)}: only a range of `i32` is translated")
+            f1, t1 = self.closure_m(c1, "i32", env)
+            if not isinstance(t1, tuple) or t1[0] != "opt" or t1[1] is None:
+                fail(self.w(c1), "the closure of `filter_map` does not return an Option")
+            f2, t2 = self.closure_m(c2, t1[1], env)
+            v = self.fresh()
+            return [f"let {v} := {rt}"] + k(f"(rangeInclList {v}.start {v}.«end»)", f1, f2, t2)
+        return self.cg(r, env, got)
+
+    def method(self, e, env, k):
+        w, name, recv = self.w(e), e.name, e.e
+        while recv.kind == "paren":
+            recv = recv.e
+        if name == "date" and recv.kind == "var" and recv.name == "DATE_END" and "DATE_END" not in env:
+            if e.args:
+                fail(w, "`DATE_END.date()` takes no argument")
+            if ("crate::opening_hours", "DATE_END") not in self.uses:
+                fail(w, "`DATE_END` is read as `crate::opening_hours::DATE_END`, but the file does not import it from there")
+            return k("Chrono.DATE_END", "date")
+        if name == "into_iter" and recv.kind == "arraylit" and not e.args:
+            def got(a):
+                if not a or any(ty != a[0][1] for _, ty in a):
+                    fail(w, "the elements of the array do not have one type")
+                return k("[" + ", ".join(t for t, _ in a) + "]", ("list", a[0][1]))
+            return self.args(recv.elems, env, got)
+        ch = self.chain(e)
+        if ch is not None:
+            # the items of the chain, all of them, in order, BEFORE the consumer runs (the consumer takes a list): see RustDated3.lean
+            def parts(ys, f1, f2, ity):
+                v = self.fresh()
+                return [f"bnd (filterMapMapM"] + ["  " + x for x in f1] + ["  " + x for x in f2] + [f"  {ys}) fun {v} =>"] + k(v, ("list", ity))
+            return self.chain_parts(ch, env, parts)
+        if name == "unwrap_or" and len(e.args) == 1 and e.e.kind == "method" and e.e.name == "find" and len(e.e.args) == 1 and self.chain(e.e.e) is not None:
+            # `(a..=b).filter_map(c1).map(c2).find(c3).unwrap_or(d)`: lazy, one item at a time (`filterMapMapFindM`)
+            def parts(ys, f1, f2, ity):
+                x, env2 = self.closure1(e.e.args[0], ity, env)
+                pt, pty = self.pure(e.e.args[0].body, env2)
+                if pty != "bool":
+                    fail(w, "the closure of `.find()` does not return a bool")
+                dt, dty = self.pure(e.args[0], env)  # evaluated before the chain runs, without effects
+                if dty != ity:
+                    fail(w, f"type mismatch: `.unwrap_or({d3_show(dty)})` on Option<{d3_show(ity)}>")
+                v = self.fresh()
+                return [f"bnd (filterMapMapFindM"] + ["  " + x for x in f1] + ["  " + x for x in f2] + [f"  (fun ({x} : {d3_lty(ity)}) => {pt})", f"  {ys}) fun {v} =>"] + \
+                    k(f"Option.getD {v} {atom(dt)}", ity)
+            return self.chain_parts(self.chain(e.e.e), env, parts)
+
+        def on(t, ty):
+            if name == "apply" and ty == "DateOffset":
+                if len(e.args) != 1:
+                    fail(w, "`.apply()` takes one argument")
+
+                def got(a, ta):
+                    if ta != "date":
+                        fail(w, f"`DateOffset::apply` of {d3_show(ta)}")
+                    v = self.fresh()
+                    return [f"bnd (DateOffset.apply {atom(t)} {atom(a)}) fun {v} =>"] + k(v, "date")
+                return self.cg(e.args[0], env, got)
+            if name == "contains" and ty == ("rng", "date"):
+                if len(e.args) != 1:
+                    fail(w, "`.contains()` takes one argument")
+                return self.cg(e.args[0], env, lambda a, ta: k(f"(decide ({atom(t)}.start ≤ {atom(a)}) && decide ({atom(a)} ≤ {atom(t)}.«end»))", "bool")
+                               if ta == "date" else fail(w, f"`.contains(..)` of a {d3_show(ta)}"))
+            if name in ("start", "end") and isinstance(ty, tuple) and ty[0] == "rng" and not e.args:
+                return k(f"{atom(t)}.{lname(name)}", ty[1])
+            fail(w, f"method `.{name}()` on {d3_show(ty)} is outside the translated subset (dated3 functions)")
+        return self.cg(recv, env, on)
+
+
+# -- [dated3 extension], second part: `ensure_increasing_iter` and `intervals_from_bounds` ------------------------
+# Functions of the shape `let mut IT = <list>.peekable(); .. std::iter::from_fn(move || BODY)`: the `mut` Peekable iterators are
+# the lists of what is left of them (state), BODY is a STEP function `state -> R (Option item × state)` and the function is
+# `fromFn step fuel state` (OH/Model/RustSeq.lean: the items collected, at most `fuel` calls).  Inside BODY:
+#   `let v = IT.next()?;`                          match IT with | [] => return None | v :: IT => ..
+#   `while IT.next_if(|x| c).is_some() {}`         IT := IT.dropWhile (fun x => c)     (`next_if` pops the head while `c` holds)
+#   `if let Some(x) = IT2.peek() { <that loop> }`  IT := match IT2.head? with | some x => IT.dropWhile .. | none => IT
+#   `IT.next();`  `if c { IT.next(); }`            IT := IT.tail / IT := if c then IT.tail else IT
+#   `let r = match (A.peek().copied(), B.peek().copied()) { (None, _) => return None, (Some(a), None) => { .. v }, (Some(a), Some(b))
+#    if g => { .. v }, (Some(_), Some(_)) => unreachable!() };`   a `match` on the two heads; a guarded arm falls through to the
+#    LATER unguarded arm of the same shape (first-match semantics), which is emitted as its `else` only
+#   the tail `Some(v)`.
+D3_UNREACHABLE = '.error (.panic "internal error: entered unreachable code")'
+
+
+class D3StepGen:
+    def __init__(self, fname, rname, state, generic, uses):
+        self.f, self.rname, self.state, self.generic, self.uses = fname, rname, list(state), generic, uses
+
+    def w(self, node):
+        return f"{self.f}:{node.line}"
+
+    def st(self):
+        return lname(self.state[0]) if len(self.state) == 1 else "(" + ", ".join(lname(n) for n in self.state) + ")"
+
+    def state_var(self, e):
+        while e.kind in ("paren", "ref", "deref"):
+            e = e.e
+        return e.name if e.kind == "var" and e.name in self.state else None
+
+    def is_call0(self, e, name):
+        """`IT.name()` on a state variable -> IT or None"""
+        if e.kind == "method" and e.name == name and not e.args:
+            return self.state_var(e.e)
+        return None
+
+    def pexpr(self, e, env):
+        w = self.w(e)
+        if e.kind in ("paren",):
+            return atom(self.pexpr(e.e, env))
+        if e.kind in ("ref", "deref"):
+            return self.pexpr(e.e, env)
+        if e.kind == "var":
+            if e.name not in env:
+                fail(w, f"unknown variable `{e.name}` (the closure of `from_fn` may mention its own variables only)")
+            return lname(e.name)
+        if e.kind == "some":
+            return f"some {atom(self.pexpr(e.e, env))}"
+        if e.kind == "bin" and e.op in ("<", "<=", ">", ">=", "==", "!="):
+            if e.op in ("==", "!=") and self.generic:
+                fail(w, "`==` on the generic element type is outside the translated subset")
+            op = {"==": "=", "!=": "≠", "<": "<", "<=": "≤", ">": ">", ">=": "≥"}[e.op]
+            return f"decide ({atom(self.pexpr(e.l, env))} {op} {atom(self.pexpr(e.r, env))})"
+        if e.kind == "range" and e.incl and not self.generic:
+            return f"RangeInclusive.mk {atom(self.pexpr(e.l, env))} {atom(self.pexpr(e.r, env))}"
+        if e.kind == "method" and e.name == "date" and not e.args and e.e.kind == "var" and e.e.name == "DATE_END" and "DATE_END" not in env and not self.generic:
+            if ("crate::opening_hours", "DATE_END") not in self.uses:
+                fail(w, "`DATE_END` is read as `crate::opening_hours::DATE_END`, but the file does not import it from there")
+            return "Chrono.DATE_END"
+        fail(w, f"this expression ({e.kind}) is outside the translated subset (the closure of `from_fn`)")
+
+    def drop_while(self, e, env):
+        """`while IT.next_if(|x| c).is_some() {}` -> (IT, Lean term of the new IT) or None"""
+        if not (e.kind == "if" and e.c.kind == "d3whilecond"):
+            return None
+        c = e.c.c
+        if not (c.kind == "method" and c.name == "is_some" and not c.args and c.e.kind == "method" and c.e.name == "next_if" and len(c.e.args) == 1):
+            fail(self.w(e), "only `while IT.next_if(|x| c).is_some() {}` is translated")
+        it = self.state_var(c.e.e)
+        cl = c.e.args[0]
+        if it is None or cl.kind != "closure" or not isinstance(cl.pat, str) or cl.pat in env or cl.pat in self.state:
+            fail(self.w(e), "only `while IT.next_if(|x| c).is_some() {}` on a `mut` Peekable of the function is translated")
+        env2 = dict(env)
+        env2[cl.pat] = "elem"
+        return it, f"List.dropWhile (fun {lname(cl.pat)} => {self.pexpr(cl.body, env2)}) {lname(it)}"
+
+    def bind_ok(self, name, env, node):
+        if name in env or name in self.state or re.fullmatch(r"tmp\d+|ext_\w+|fuel", name):
+            fail(self.w(node), f"`{name}` shadows another variable / clashes with the translator's names: outside the translated subset")
+
+    def block(self, b, env, k):
+        """lines of the statements, then `k(term of the tail value)`; `return None` ends with `.ok (none, state)`"""
+        def go(i, env):
+            if i == len(b.stmts):
+                t = b.tail
+                if t.kind == "return":
+                    if t.e.kind != "none":
+                        fail(self.w(t), "only `return None` is translated inside the closure of `from_fn`")
+                    return [f".ok (none, {self.st()})"]
+                if t.kind == "unreachable":
+                    return [D3_UNREACHABLE]
+                if t.kind == "unit":
+                    fail(self.w(b), "a block without a value is outside the translated subset here")
+                return k(self.pexpr(t, env))
+            s_ = b.stmts[i]
+            if s_.kind == "let" and not s_.mut and s_.ann is None:
+                self.bind_ok(s_.name, env, s_)
+                if s_.e.kind == "try" and self.is_call0(s_.e.e, "next"):
+                    it = lname(self.is_call0(s_.e.e, "next"))
+                    env2 = dict(env)
+                    env2[s_.name] = "elem"
+                    return [f"match {it} with", f"| [] => .ok (none, {self.st()})", f"| {lname(s_.name)} :: {it} =>"] + go(i + 1, env2)
+                if s_.e.kind == "d3tmatch":
+                    env2 = dict(env)
+                    env2[s_.name] = "value"
+                    return self.tmatch(s_.e, env, lambda v: [f"let {lname(s_.name)} := {v}"] + go(i + 1, env2))
+                fail(self.w(s_), "this `let` is outside the translated subset (the closure of `from_fn`)")
+            if s_.kind == "exprstmt":
+                e = s_.e
+                dw = self.drop_while(e, env)
+                if dw:
+                    return [f"let {lname(dw[0])} := {dw[1]}"] + go(i + 1, env)
+                if e.kind == "if" and e.c.kind == "d3somecond" and e.b is None:
+                    it2 = self.is_call0(e.c.e, "peek")
+                    inner = e.a
+                    loop = inner.stmts[0].e if (len(inner.stmts) == 1 and inner.tail.kind == "unit" and inner.stmts[0].kind == "exprstmt") else \
+                        inner.tail if (not inner.stmts and inner.tail.kind == "if") else None
+                    if it2 is None or loop is None:
+                        fail(self.w(e), "only `if let Some(x) = IT.peek() { while IT2.next_if(..).is_some() {} }` is translated")
+                    self.bind_ok(e.c.name, env, e)
+                    env2 = dict(env)
+                    env2[e.c.name] = "elem"
+                    dw = self.drop_while(loop, env2)
+                    if not dw:
+                        fail(self.w(e), "only `if let Some(x) = IT.peek() { while IT2.next_if(..).is_some() {} }` is translated")
+                    return [f"let {lname(dw[0])} := match List.head? {lname(it2)} with | some {lname(e.c.name)} => {dw[1]} | none => {lname(dw[0])}"] + go(i + 1, env)
+                if self.is_call0(e, "next"):
+                    it = lname(self.is_call0(e, "next"))
+                    return [f"let {it} := List.tail {it}"] + go(i + 1, env)
+                if e.kind == "if" and e.c.kind not in ("d3somecond", "d3fixedcond", "d3whilecond") and e.b is not None and not e.b.stmts and e.b.tail.kind == "unit" \
+                        and len(e.a.stmts) == 1 and e.a.tail.kind == "unit" and e.a.stmts[0].kind == "exprstmt" and self.is_call0(e.a.stmts[0].e, "next"):
+                    it = lname(self.is_call0(e.a.stmts[0].e, "next"))
+                    return [f"let {it} := if {self.pexpr(e.c, env)} then List.tail {it} else {it}"] + go(i + 1, env)
+            fail(self.w(s_), "statement outside the translated subset (the closure of `from_fn`)")
+        return go(0, env)
+
+    def tmatch(self, e, env, k):
+        heads = []
+        for it_ in e.scrut.items:
+            if not (it_.kind == "method" and it_.name == "copied" and not it_.args and self.is_call0(it_.e, "peek")):
+                fail(self.w(e), "only `match (A.peek().copied(), B.peek().copied()) { .. }` is translated")
+            heads.append(f"List.head? {lname(self.is_call0(it_.e, 'peek'))}")
+        shape = lambda pats: tuple(p[0] for p in pats)
+        lines = [f"match {', '.join(heads)} with"]
+        used_as_else = set()
+        for j, (pats, guard, body) in enumerate(e.arms):
+            if j in used_as_else:
+                continue
+            env2 = dict(env)
+            for p in pats:
+                if p[0] == "some" and p[1] != "_":
+                    self.bind_ok(p[1], env2, e)
+                    env2[p[1]] = "elem"
+            pat = ", ".join({"none": "none", "wild": "_"}.get(p[0]) or f"some {lname(p[1])}" for p in pats)
+            bl = self.block(body, env2, k)
+            if guard is None:
+                lines += [f"| {pat} => ("] + ["  " + x for x in bl] + ["  )"]
+                continue
+            els = None
+            for j2 in range(j + 1, len(e.arms)):
+                p2, g2, b2 = e.arms[j2]
+                if g2 is None and shape(p2) == shape(pats) and all(p[0] != "some" or p[1] == "_" for p in p2):
+                    els = j2
+                    break
+            if els is None:
+                fail(self.w(e), "a guarded arm needs a later unguarded arm of the same shape with `_` binders (first-match semantics): outside the translated subset")
+            used_as_else.add(els)
+            lines += [f"| {pat} => (", f"  if {self.pexpr(guard, env2)} then ("] + ["    " + x for x in bl] + ["    )", "  else ("] + \
+                     ["    " + x for x in self.block(e.arms[els][2], env, k)] + ["    )", "  )"]
+        return lines
+
+
+def d3_step_fn(tk, p, name, params, generic, item_lty, sigs, uses):
+    """`p` stands at the `{` of the body of `name`; `params`: names of the list parameters -> Lean lines of `name.next` and `name`"""
+    body = p.block()
+    elem = "T" if generic else "Int"
+    binder = "{T : Type} [LE T] [LT T] [DecidableLE T] [DecidableLT T] " if generic else ""
+    state, pre, known = [], [], set(params)
+    for s_ in body.stmts:
+        if s_.kind != "let" or not s_.mut or s_.ann is not None:
+            fail(f"{F_DF}:{s_.line}", f"`{name}`: only `let mut IT = <iterator>.peekable();` may precede `std::iter::from_fn`")
+        e = s_.e
+        if not (e.kind == "method" and e.name == "peekable" and not e.args):
+            fail(f"{F_DF}:{s_.line}", f"`{name}`: only `let mut IT = <iterator>.peekable();` may precede `std::iter::from_fn`")
+        src = e.e
+        if src.kind == "var" and src.name in known:
+            if src.name != s_.name:
+                pre.append(f"let {lname(s_.name)} := {lname(src.name)}")
+        elif src.kind == "call" and src.path == ["ensure_increasing_iter"] and "ensure_increasing_iter" in sigs and len(src.args) == 1 \
+                and src.args[0].kind == "method" and src.args[0].name == "into_iter" and not src.args[0].args and src.args[0].e.kind == "var" and src.args[0].e.name in known:
+            pre.append(f"bnd (ensure_increasing_iter {lname(src.args[0].e.name)} fuel) fun {lname(s_.name)} =>")
+        else:
+            fail(f"{F_DF}:{s_.line}", f"`{name}`: the source of this Peekable is outside the translated subset")
+        if s_.name in state or re.fullmatch(r"tmp\d+|ext_\w+|fuel|s", s_.name):
+            fail(f"{F_DF}:{s_.line}", f"`{s_.name}` is declared twice / clashes with the translator's names")
+        state.append(s_.name)
+        known.add(s_.name)
+    t = body.tail
+    if not (t.kind == "call" and t.path == ["std", "iter", "from_fn"] and len(t.args) == 1 and t.args[0].kind == "thunk" and getattr(t.args[0], "move", False)
+            and t.args[0].e.kind == "blockexpr") or not 1 <= len(state) <= 2:
+        fail(f"{F_DF}:{t.line}", f"`{name}`: the body has to end with `std::iter::from_fn(move || {{ .. }})` over one or two `mut` Peekables")
+    g = D3StepGen(F_DF, name, state, generic, uses)
+    step = g.block(t.args[0].e.b, {}, lambda v: [f".ok ({v}, {g.st()})"])
+    sty = f"List {elem}" if len(state) == 1 else f"(List {elem} × List {elem})"
+    ps = " ".join(f"({lname(n)} : List {elem})" for n in state)
+    L = [f"/-- the closure of `std::iter::from_fn` in `{name}` ({F_DF}:{t.line}): ONE call, from what is left of the Peekable iterator(s) "
+         f"({', '.join(state)}) to the item and what is left afterwards -/",
+         f"def {name}.next {binder}{ps} : R (Option {item_lty} × {sty}) :="] + ["  " + x for x in step] + [""]
+    call = f"fromFn {name}.next fuel {lname(state[0])}" if len(state) == 1 else f"fromFn (fun s => {name}.next s.1 s.2) fuel ({lname(state[0])}, {lname(state[1])})"
+    L += [f"/-- `{name}` ({F_DF}): the items of the iterator it returns, collected; `fuel` bounds the number of calls of the closure (running out is an "
+          "error outcome; the theorems show which fuel suffices) -/",
+          f"def {name} {binder}{' '.join(f'({lname(n)} : List {elem})' for n in params)} (fuel : Nat) : R (List {item_lty}) :="] + ["  " + x for x in pre] + ["  " + call, ""]
+    return L
+
+
+def d3_find_arm(tk, fn_at, rel):
+    """the `Date { start: (a, b), end: (c, d) } => { .. }` arm of the `match self { .. }` that ENDS the body of the function whose
+    `fn` token is at `fn_at`: (names a b c d, token index of the arm's `{`, tokens between the body's `{` and `match`)"""
+    i = fn_at
+    while tk[i].text != "{" or tk[i].kind != "op":
+        if tk[i].kind == "eof":
+            fail(rel, "no body")
+        i += 1
+    bo, be = i, matching(tk, i)
+    depth, mo = 0, None
+    for j in range(bo + 1, be):
+        t = tk[j]
+        if t.kind == "op" and t.text in "{([":
+            depth += 1
+        elif t.kind == "op" and t.text in "})]":
+            depth -= 1
+        elif depth == 0 and t.text == "match" and tk[j + 1].text == "self" and tk[j + 2].text == "{":
+            mo = j
+            break
+    if mo is None or matching(tk, mo + 2) != be - 1:
+        fail(f"{rel}:{tk[bo].line}", "the body does not end with `match self { .. }`")
+    j, me = mo + 3, be - 1
+    want = ["ds", "::", "MonthdayRange", "::", "Date", "{", "start", ":", "(", None, ",", None, ")", ",", "end", ":", "(", None, ",", None, ")"]
+    while j < me:
+        ps = j
+        while tk[j].text != "=>":
+            if j >= me:
+                fail(f"{rel}:{tk[ps].line}", "arm without `=>`")
+            if tk[j].kind == "op" and tk[j].text in "{([":
+                j = matching(tk, j)
+            j += 1
+        pat = tk[ps:j]
+        j += 1
+        if tk[j].text != "{":
+            fail(f"{rel}:{tk[j].line}", "an arm of `match self` that is not a block is outside the translated subset (dated3 functions)")
+        body = j
+        j = matching(tk, j) + 1
+        if j < me and tk[j].text == ",":
+            j += 1
+        texts = [x.text for x in pat]
+        if texts[:5] == want[:5]:
+            if texts and texts[-1] == "}" and texts[-2] == ",":
+                texts = texts[:-2] + ["}"]
+            if len(texts) != len(want) + 1 or texts[-1] != "}" or any(a is not None and a != b for a, b in zip(want, texts)):
+                fail(f"{rel}:{pat[0].line}", "the pattern of the `Date` arm has to be `ds::MonthdayRange::Date { start: (a, b), end: (c, d) }`")
+            names = [texts[n] for n, a in enumerate(want) if a is None]
+            if len(set(names)) != 4 or any(not re.fullmatch(r"[a-z_][a-z0-9_]*", n) for n in names):
+                fail(f"{rel}:{pat[0].line}", "the bindings of the `Date` arm have to be four different plain names")
+            return names, body, tk[bo + 1:mo]
+    fail(f"{rel}:{tk[mo].line}", "no arm `ds::MonthdayRange::Date { .. }`")
+
+
+def dated3_section(toks):
+    """the Lean text (lines) of the dated3 targets"""
+    tk = toks(F_DF)
+    uses = file_uses(tk)
+    for imp in sorted(D3_IMPORTS):
+        if imp not in uses:
+            fail(F_DF, f"`use {imp[0]}::{imp[1]};` not found: the name `{imp[1]}` is read as that item")
+    texts = [x.text for x in tk]
+    want = "use opening_hours_syntax :: rules :: day :: { self as ds , Date , Month } ;".split()
+    if ALIASES[F_DF]["ds"] != "opening_hours_syntax::rules::day" or not any(texts[j:j + len(want)] == want for j in range(min(len(texts), 400))):
+        fail(F_DF, "`Date` is read as `opening_hours_syntax::rules::day::Date`, but the file does not import it from there")
+    fns = set(find_local_fns(tk))
+    for n in list(D3_CALLEES) + list(D3_BUILDERS) + list(D3_FN_HOLES) + ["date_on_year", "intervals_from_bounds", "single_day_intervals"]:
+        if n not in fns:
+            fail(F_DF, f"free function `{n}` not found")
+    for n, want_sig in D3_SIGS.items():
+        got_sig = d3_sig_text(tk, find_impl_fns(tk, F_DF, None, None, [n])[n])
+        if got_sig.rstrip() != want_sig and got_sig.replace(" , )", " )") != want_sig.replace(" , )", " )"):
+            fail(F_DF, f"the signature of `{n}` changed: expected `{want_sig}`, found `{got_sig}` (tables of the dated3 extension)")
+    dtk0 = toks(F_DAY)
+    got_sig = d3_sig_text(dtk0, find_impl_fns(dtk0, F_DAY, "DateOffset", None, ["apply"])["apply"])
+    if got_sig != D3_SIG_APPLY:
+        fail(F_DAY, f"the signature of `DateOffset::apply` changed: expected `{D3_SIG_APPLY}`, found `{got_sig}` (tables of the dated3 extension)")
+    # the declaration of the variant the arms destructure
+    dtk = toks(F_DAY)
+    decl = ["Date", "{", "start", ":", "(", "Date", ",", "DateOffset", ")", ",", "end", ":", "(", "Date", ",", "DateOffset", ")", ",", "}"]
+    ok = False
+    for i, t in enumerate(dtk):
+        if t.text == "enum" and dtk[i + 1].text == "MonthdayRange":
+            ee = matching(dtk, i + 2)
+            texts = [x.text for x in dtk[i + 2:ee + 1]]
+            ok = any(texts[j:j + len(decl)] == decl for j in range(len(texts)))
+    if not ok:
+        fail(F_DAY, "`enum MonthdayRange { .. Date { start: (Date, DateOffset), end: (Date, DateOffset), } }` not found")
+    L = ["/-! ### [dated3 extension] `single_interval_from_bounds` and the `Date { .. }` arms of `MonthdayRange` (opening-hours/src/filter/date_filter.rs) -/", "",
+         "namespace Dated3", ""]
+    mk = lambda: D3Parser(tk, F_DF, {"DateOffset"}, uses=std_uses(tk), enums={"Month"}, aliases={"ds"}, modelled=True, penums={"Date"})
+    sigs = {}
+    # 0. `ensure_increasing_iter<T: Ord>(iter: impl Iterator<Item = T>) -> impl Iterator<Item = T>` and
+    #    `intervals_from_bounds(bounds_start: impl IntoIterator<Item = NaiveDate>, bounds_end: ..) -> impl Iterator<Item = RangeInclusive<NaiveDate>>`
+    p = mk()
+    p.i = find_impl_fns(tk, F_DF, None, None, ["ensure_increasing_iter"])["ensure_increasing_iter"]
+    for x in ("fn", "ensure_increasing_iter", "<", "T", ":", "Ord", ">", "("):
+        p.eat(x)
+    pn = p.ident()
+    for x in (":", "impl", "Iterator", "<", "Item", "=", "T", ">", ")", "->", "impl", "Iterator", "<", "Item", "=", "T", ">"):
+        p.eat(x)
+    L += d3_step_fn(tk, p, "ensure_increasing_iter", [pn], True, "T", sigs, uses)
+    sigs["ensure_increasing_iter"] = True
+    p = mk()
+    p.i = find_impl_fns(tk, F_DF, None, None, ["intervals_from_bounds"])["intervals_from_bounds"]
+    for x in ("fn", "intervals_from_bounds", "("):
+        p.eat(x)
+    pns = []
+    for _ in range(2):
+        pns.append(p.ident())
+        for x in (":", "impl", "IntoIterator", "<", "Item", "=", "NaiveDate", ">"):
+            p.eat(x)
+        if p.at(","):
+            p.i += 1
+    for x in (")", "->", "impl", "Iterator", "<", "Item", "=", "RangeInclusive", "<", "NaiveDate"):
+        p.eat(x)
+    p.close_angle()
+    p.close_angle()
+    L += d3_step_fn(tk, p, "intervals_from_bounds", pns, False, "(RangeInclusive Int)", sigs, uses)
+    del sigs["ensure_increasing_iter"]
+    # 1. `single_interval_from_bounds((start, start_offset): (ds::Date, ds::DateOffset), (end, end_offset): (..)) -> Option<RangeInclusive<NaiveDate>>`
+    name = "single_interval_from_bounds"
+    p = mk()
+    p.i = find_impl_fns(tk, F_DF, None, None, [name])[name]
+    line = p.eat("fn").line
+    p.eat(name)
+    p.eat("(")
+    params = []
+    for _ in range(2):
+        p.eat("(")
+        a = p.ident()
+        p.eat(",")
+        b = p.ident()
+        for x in (")", ":", "(", "ds", "::", "Date", ",", "ds", "::", "DateOffset", ")"):
+            p.eat(x)
+        if p.at(","):
+            p.i += 1
+        params += [(a, "Date"), (b, "DateOffset")]
+    p.eat(")")
+    for x in ("->", "Option", "<", "RangeInclusive", "<", "NaiveDate"):
+        p.eat(x)
+    p.close_angle()
+    p.close_angle()
+    if len({n for n, _ in params}) != 4:
+        fail(f"{F_DF}:{line}", "the four parameter names have to differ")
+    body = p.block()
+    ret = ("opt", ("rng", "date"))
+    g = D3Gen(F_DF, name, name, params, ret, body, sigs, uses, fns)
+    doc = (f"/-- `{name}(({params[0][0]}, {params[1][0]}): (ds::Date, ds::DateOffset), ({params[2][0]}, {params[3][0]}): (ds::Date, ds::DateOffset)) -> "
+           f"Option<RangeInclusive<NaiveDate>>` ({F_DF}:{line}); the tuple parameters are flattened -/")
+    L += g.gen(doc) + [""]
+    if g.externs:
+        fail(F_DF, f"{name}: unexpected named parameters {sorted(g.externs)}")
+    sigs[name] = (["Date", "DateOffset", "Date", "DateOffset"], ret, name, [])
+    sigs[name + "#shape"] = [2, 2]
+    # 1b. `single_day_intervals(month: Month, day: u8, years: RangeInclusive<i32>, start_offset: ds::DateOffset, end_offset: ds::DateOffset)
+    #      -> impl Iterator<Item = RangeInclusive<NaiveDate>>`: the list of its items
+    name = "single_day_intervals"
+    p = mk()
+    p.i = find_impl_fns(tk, F_DF, None, None, [name])[name]
+    line = p.eat("fn").line
+    p.eat(name)
+    p.eat("(")
+    params = []
+    for ty, ttoks in (("Month", ["Month"]), ("u8", ["u8"]), (("rng", "i32"), ["RangeInclusive", "<", "i32", ">"]),
+                      ("DateOffset", ["ds", "::", "DateOffset"]), ("DateOffset", ["ds", "::", "DateOffset"])):
+        pn = p.ident()
+        p.eat(":")
+        for x in ttoks:
+            p.eat(x)
+        if p.at(","):
+            p.i += 1
+        params.append((pn, ty))
+    p.eat(")")
+    for x in ("->", "impl", "Iterator", "<", "Item", "=", "RangeInclusive", "<", "NaiveDate"):
+        p.eat(x)
+    p.close_angle()
+    p.close_angle()
+    if len({n for n, _ in params}) != 5:
+        fail(f"{F_DF}:{line}", "the parameter names have to differ")
+    body = p.block()
+    ret = ("list", ("rng", "date"))
+    g = D3Gen(F_DF, name, name, params, ret, body, sigs, uses, fns)
+    doc = (f"/-- `{name}({', '.join(n + ': ' + d3_show(t) for n, t in params)}) -> impl Iterator<Item = RangeInclusive<NaiveDate>>` ({F_DF}:{line}): "
+           "the list of its items, all of them, in order (`filterMapMapM`, OH/Model/RustDated3.lean) -/")
+    L += g.gen(doc) + [""]
+    if g.externs:
+        fail(F_DF, f"{name}: unexpected named parameters {sorted(g.externs)}")
+    sigs[name] = ([t for _, t in params], ret, name, [])
+    sigs[name + "#shape"] = [0, 0, 0, 0, 0]
+    # 2. the `Date { .. }` arms
+    for rname, rty, lean_name in D3_ARMS:
+        at = find_impl_fns(tk, F_DF, "MonthdayRange", "DateFilter", [rname], header="impl DateFilter for ds :: MonthdayRange".split())[rname]
+        # signature: `fn NAME<L>(&self, date: NaiveDate, _ctx: &Context<L>) -> R where ..`
+        sig = [x.text for x in tk[at:at + 40]]
+        k0 = sig.index("(")
+        if sig[k0:k0 + 8] != ["(", "&", "self", ",", "date", ":", "NaiveDate", ","]:
+            fail(f"{F_DF}:{tk[at].line}", f"`{rname}`: the parameters have to be `(&self, date: NaiveDate, _ctx: &Context<L>)`")
+        names, bat, prefix = d3_find_arm(tk, at, F_DF)
+        if rname == "next_change_hint" and prefix:
+            fail(f"{F_DF}:{prefix[0].line}", f"`{rname}`: statements in front of `match self` are outside the translated subset (dated3 functions)")
+        # `filter`: the statements in front of the `match` (`let in_year = ..; let in_month = ..;`) may not be mentioned by the arm
+        # (they are not part of the definition; they are translated with the `Month` arm, `MonthdayRange.filter_month`)
+        pre_names = {prefix[j + 1].text for j, x in enumerate(prefix) if x.text == "let"}
+        p = mk()
+        p.i = bat
+        body = p.block()
+        used = set()
+        seq_idents(body, used)
+        if pre_names & used:
+            fail(f"{F_DF}:{tk[bat].line}", f"the `Date` arm mentions {sorted(pre_names & used)} of the statements in front of `match self`: outside the translated subset")
+        params = [("date", "date"), (names[0], "Date"), (names[1], "DateOffset"), (names[2], "Date"), (names[3], "DateOffset")]
+        g = D3Gen(F_DF, rname, lean_name, params, rty, body, sigs, uses, fns)
+        doc = (f"/-- the arm `ds::MonthdayRange::Date {{ start: ({names[0]}, {names[1]}), end: ({names[2]}, {names[3]}) }}` of "
+               f"`<ds::MonthdayRange as DateFilter>::{rname}(&self, date: NaiveDate, _ctx) -> {d3_show(rty)}` ({F_DF}:{tk[bat].line}); "
+               "`ext_intervals_from_bounds` = the untranslated function of the file, by name; an adaptor chain "
+               "handed to a callee is the list of its items (`filterMapMapM`, OH/Model/RustDated3.lean) -/")
+        L += g.gen(doc) + [""]
+    L += ["end Dated3", ""]
+    return L
+
+# ---- end of [dated3 extension] ------------------------------------------------------------------
 
 def main(argv):
     repo, out, overrides = REPO, OUT, {}
